@@ -39,6 +39,8 @@ CritExactRsa(c, at) ==
                                  ELSE IF VariantWeak(at.res39, at.res48) THEN "must" ELSE "mustnot"
     [] c = "CheckOpensslDenylist" /\ at.openssl # "unknown" -> IF at.openssl = "listed" THEN "must" ELSE "mustnot"
     [] c = "CheckKeypairDenylist" /\ at.keypair = "covered" -> "must"
+    \* a modulus next to a generated one (same 64 leading bits, hence the same table entry) that the generator did not produce
+    [] c = "CheckKeypairDenylist" /\ at.keypair = "neighbour" -> "mustnot"
     [] OTHER -> "none"
 \* family "exact_ec": known (curve has parameters), on_curve, in_range, order_bits
 CritExactEc(c, at) ==
